@@ -182,11 +182,6 @@ def handle : Handler
       let raw ← intList? raw
       let flag ← bool? flag
       some (verdict (!((unique raw).length == raw.length) || flag))) "bad-args"
-  | "c05.contract_progress", [refined, flag] => some <| Option.getD (do
-      -- `LeidenProgress`: a round without stop flag leaves strictly fewer refined clusters than nodes
-      let refined ← intList? refined
-      let flag ← bool? flag
-      some (verdict (flag || decide ((unique refined).length < refined.length)))) "bad-args"
   | "c05.contract_leiden", [labels, refined] => some <| Option.getD (do
       -- `LeidenContract`: same length, and a refined cluster lies inside one cluster
       let l ← intList? labels
